@@ -4,8 +4,12 @@ import (
 	"fmt"
 	"strings"
 
+	"github.com/ipld/go-ipld-prime/datamodel"
+	"github.com/ipld/go-ipld-prime/node/basicnode"
+	ipldschema "github.com/ipld/go-ipld-prime/schema"
 	"github.com/storacha/go-ucanto/core/delegation"
 	"github.com/storacha/go-ucanto/core/invocation"
+	"github.com/storacha/go-ucanto/core/ipld"
 	"github.com/storacha/go-ucanto/core/result/failure"
 	"github.com/storacha/go-ucanto/core/schema"
 	"github.com/storacha/go-ucanto/ucan"
@@ -280,13 +284,106 @@ func ResolveCapability[Caveats any](descriptor Descriptor[Caveats], claimed ucan
 		return nil, NewMalformedCapabilityError(source.Capability(), err)
 	}
 
-	// TODO: inherit missing fields
-	nb, err := descriptor.Nb().Read(claimed.Nb())
+	// caveats set in the delegation are what the derivation rule is shown,
+	// fields it leaves unset are inherited from the claimed capability
+	inherited, ierr := inheritCaveats(claimed.Nb(), source.Capability().Nb())
+	if ierr != nil {
+		return nil, NewMalformedCapabilityError(source.Capability(), schema.NewSchemaError(ierr.Error()))
+	}
+	nb, err := descriptor.Nb().Read(inherited)
 	if err != nil {
 		return nil, NewMalformedCapabilityError(source.Capability(), err)
 	}
 
 	return ucan.NewCapability(can, uri, nb), nil
+}
+
+// inheritCaveats combines the caveats written in a delegation with the ones of
+// the capability claimed from it: every field the delegation sets is kept and
+// every field it leaves unset is taken from the claim. The result is what gets
+// read as the caveats of the delegated capability.
+func inheritCaveats(claimed any, delegated any) (any, error) {
+	dn, err := caveatsNode(delegated)
+	if err != nil {
+		return nil, err
+	}
+	// a delegation without caveats restricts nothing
+	if dn == nil || dn.Kind() == datamodel.Kind_Null {
+		return claimed, nil
+	}
+	if dn.Kind() != datamodel.Kind_Map {
+		return dn, nil
+	}
+	if dn.Length() == 0 {
+		return claimed, nil
+	}
+	cn, err := caveatsNode(claimed)
+	if err != nil {
+		return nil, err
+	}
+	if cn == nil || cn.Kind() != datamodel.Kind_Map {
+		return dn, nil
+	}
+
+	nb := basicnode.Prototype.Map.NewBuilder()
+	ma, err := nb.BeginMap(dn.Length() + cn.Length())
+	if err != nil {
+		return nil, err
+	}
+	for it := dn.MapIterator(); !it.Done(); {
+		k, v, err := it.Next()
+		if err != nil {
+			return nil, err
+		}
+		if err := assembleEntry(ma, k, v); err != nil {
+			return nil, err
+		}
+	}
+	for it := cn.MapIterator(); !it.Done(); {
+		k, v, err := it.Next()
+		if err != nil {
+			return nil, err
+		}
+		if _, err := dn.LookupByNode(k); err == nil {
+			continue
+		}
+		if err := assembleEntry(ma, k, v); err != nil {
+			return nil, err
+		}
+	}
+	if err := ma.Finish(); err != nil {
+		return nil, err
+	}
+	return nb.Build(), nil
+}
+
+func assembleEntry(ma datamodel.MapAssembler, k, v datamodel.Node) error {
+	if err := ma.AssembleKey().AssignNode(k); err != nil {
+		return err
+	}
+	return ma.AssembleValue().AssignNode(v)
+}
+
+func caveatsNode(v any) (datamodel.Node, error) {
+	var n datamodel.Node
+	switch x := v.(type) {
+	case nil:
+		return nil, nil
+	case datamodel.Node:
+		n = x
+	case ipld.Builder:
+		b, err := x.ToIPLD()
+		if err != nil {
+			return nil, err
+		}
+		n = b
+	default:
+		return nil, fmt.Errorf("caveats are not an IPLD node")
+	}
+	if tn, ok := n.(ipldschema.TypedNode); ok {
+		n = tn.Representation()
+	}
+	return n, nil
 }
 
 // ResolveAbility resolves ability `pattern` of the delegated capability from
